@@ -1547,6 +1547,21 @@ def gated_expr(v, expr, at, via=None):
     return [(_true(v), v.term(expr, at=at, via=via), None)]
 
 
+def expand_conditional_values(v, gated):
+    """gated alternatives whose value is a conditional expression (`x = a if c else b`) as one alternative per arm, the test
+    (or its negation) joined to the gate: the same list the two-armed `if c: x = a  else: x = b` gives"""
+    out = []
+    for cond, val, st in gated:
+        h = v.ctx.head_of(val)
+        if h and h[0] == "ifexp":
+            c_, a_, b_ = v.ctx.args_of(val)
+            out += expand_conditional_values(v, [(v.ev._bool("and", [cond, c_]), a_, st),
+                                                 (v.ev._bool("and", [cond, v.ev._not(c_)]), b_, st)])
+        else:
+            out.append((cond, val, st))
+    return out
+
+
 def value_iff(v, gated, is_value, want, assume=None, variables=(), pre=None, lo=0):
     """the gated alternatives whose value satisfies is_value(term) arrive exactly under `want` (given `assume`)"""
     conds = [c for c, val, st in gated if is_value(val)]
